@@ -193,20 +193,41 @@ pub fn gen_streamfault(rng: &mut Rng, n: usize, thorough: bool) -> Vec<Case> {
             let ncalls = clean.io_calls;
             let cap = if thorough { ncalls } else { ncalls.min(40) };
             for k in 0..cap {
-                for kind in ["f", "e"] {
-                    let mut s: Vec<&str> = vec!["o"; k];
-                    s.push(kind);
+                // every error kind is a failure of the call (only `Interrupted` is retried by read_exact): the first
+                // I/O calls get every kind, later ones rotate through them
+                let rot = format!("f{}", 1 + k % 7);
+                let mut kinds: Vec<String> = vec!["f".into(), "e".into(), rot];
+                if k < 3 { kinds = vec!["f".into(), "e".into(), "f1".into(), "f2".into(), "f3".into(), "f4".into(), "f5".into(), "f6".into(), "f7".into()]; }
+                for kind in &kinds {
+                    let mut s: Vec<String> = vec!["o".to_string(); k];
+                    s.push(kind.clone());
                     out.push((format!("stream any {} {} {}", s.join(","), opss, h), "faults|transient".into()));
+                }
+                // a short read that delivers part of the range, then the failure (any kind) or a premature end
+                if k >= 1 {
+                    for (short, kind) in [("s1", format!("f{}", 1 + (k + 3) % 7)), ("s3", "e".to_string()), ("s2", "f".to_string())] {
+                        let mut s: Vec<String> = vec!["o".to_string(); k];
+                        s.push(short.to_string());
+                        s.push(kind);
+                        out.push((format!("stream any {} {} {}", s.join(","), opss, h), "faults|short-then-fail".into()));
+                    }
                 }
                 if k % 3 == 0 {
                     let mut s: Vec<&str> = vec!["o"; k];
                     for _ in 0..60 { s.push("f"); }
                     out.push((format!("stream any {} {} {}", s.join(","), opss, h), "faults|permanent".into()));
                 }
+                // the stream ends early from this call on (a file truncated after it was opened, a source that reports
+                // more than it delivers): every later read returns Ok(0)
+                if k % 3 == 1 {
+                    let mut s: Vec<&str> = vec!["o"; k];
+                    for _ in 0..400 { s.push("e"); }
+                    out.push((format!("stream any {} {} {}", s.join(","), opss, h), "faults|ends-early".into()));
+                }
             }
             for _ in 0..4 {
                 let s: Vec<String> = (0..ncalls + 5)
-                    .map(|_| match rng.below(10) { 0 => "f".into(), 1 => "e".into(), 2 => "i".into(), 3 => format!("s{}", rng.range(1, 5)), _ => "o".into() })
+                    .map(|_| match rng.below(10) { 0 => if rng.chance(1, 2) { "f".into() } else { format!("f{}", rng.range(1, 7)) }, 1 => "e".into(), 2 => "i".into(), 3 => format!("s{}", rng.range(1, 5)), _ => "o".into() })
                     .collect();
                 out.push((format!("stream any {} {} {}", s.join(","), opss, h), "faults|multi".into()));
             }
@@ -234,7 +255,7 @@ pub fn gen_bigfault(rng: &mut Rng, _n: usize, _thorough: bool) -> Vec<Case> {
     let clean = crate::stream::run_stream("any", "-", "-", &built.bytes);
     out.push((format!("stream any - P0,P65538 {}", h), "clean=1|big".into()));
     for k in 0..clean.io_calls {
-        for kind in ["f", "e"] {
+        for kind in ["f", "e", ["f1", "f2", "f3", "f4", "f5", "f6", "f7"][k % 7]] {
             let mut s: Vec<&str> = vec!["o"; k];
             s.push(kind);
             out.push((format!("stream any {} P0,P65538 {}", s.join(","), h), "faults|transient|big".into()));
